@@ -54,7 +54,7 @@ def check_decoder(res, ctx, rng, name):
             start[idx] = s(rng) if callable(s) else rng.choice(s)
     if name in ('BSC_setsockopt', 'BSC_getsockopt') and start[1] == domain.SOL_SOCKET_DARWIN:
         start[2] = rng.choice(domain.SOCKOPT_NAMES)
-    ret = domain.distinct_words(rng, 3)
+    ret = [w | (1 << 63) if rng.random() < 0.5 else w for w in domain.distinct_words(rng, 3)]
     case = {'name': name, 'start': start}
 
     def r(s, e, junk=()):
@@ -85,8 +85,14 @@ def check_decoder(res, ctx, rng, name):
         res.violation('c10-result-shape', f'{name}: result part {res_ok!r}', case)
         return
     nums = [int(x, 16) if x.lower().startswith('0x') else int(x) for x in re.findall(r'(?<![\w.])(-?0x[0-9a-fA-F]+|-?\d+)\b', res_ok)]
+    def full(w):
+        return {w, w - (1 << 64) if w >> 63 else w}
     for v in nums:
-        from_end = any(v in render.renderings(w) for w in ret)
+        from_end = any(v in full(w) for w in ret)
+        if not from_end and any(v in render.renderings(w) for w in ret):
+            res.violation('c10-success-value-truncated', f'{name}: result {res_ok!r} shows {v}, only the low bits of an END '
+                          f'word {[hex(w) for w in ret]}', case)
+            return
         from_start = [j for j in range(4) if v in render.renderings(start[j])]
         if not from_end and from_start:
             res.violation('c10-success-value-from-start', f'{name}: result {res_ok!r} shows START word {from_start[0]}',
